@@ -191,6 +191,44 @@ def desugar(loc, relfile, fn_paths, rules, _pass=0, optional=()):
                     records.append({"fn": fp, "rule": "D23 X.iter().position(|p| C)  =>  { index loop: the first k with C for p = &X[k], or None }",
                                     "original": src[v["call"][0]:v["call"][1]], "rewritten": new})
                     continue
+                if v["rule"] == "D40":
+                    rhs = src[v["rhs"][0]:v["rhs"][1]]
+                    places = [src[a:b] for a, b in v["places"]]
+                    assigns = " ".join(f"{pl} = pv_t.{i};" for i, pl in enumerate(places))
+                    new = f"{{ let pv_t = {rhs}; {assigns} }}"
+                    rewrites.append((v["call"][0], v["call"][1], new))
+                    records.append({"fn": fp, "rule": "D40 (A, B) = E  =>  { let t = E; A = t.0; B = t.1; }   (E is evaluated first, then the places are assigned left to right, as the destructuring assignment does)",
+                                    "original": src[v["call"][0]:v["call"][1]], "rewritten": new})
+                    continue
+                if v["rule"] == "D39":
+                    recv = src[v["recv"][0]:v["recv"][1]]
+                    init = src[v["init"][0]:v["init"][1]]
+                    acc = src[v["acc"][0]:v["acc"][1]]
+                    pat = src[v["pat"][0]:v["pat"][1]]
+                    body = src[v["body"][0]:v["body"][1]]
+                    new = (f"{{ let mut pv_acc = {init}; let mut pv_k: usize = 0; while pv_k < {recv}.len() {{ let {pat} = &{recv}[pv_k]; pv_k += 1; "
+                           f"pv_acc = {{ let {acc} = pv_acc; {body} }}; }} pv_acc }}")
+                    rewrites.append((v["call"][0], v["call"][1], new))
+                    records.append({"fn": fp, "rule": "D39 X.iter().fold(INIT, |acc, p| E)  =>  { let mut acc = INIT; index loop { let p = &X[k]; acc = E } acc }",
+                                    "original": src[v["call"][0]:v["call"][1]], "rewritten": new})
+                    continue
+                if v["rule"] == "D38":
+                    recv = src[v["recv"][0]:v["recv"][1]]
+                    fpat = src[v["fpat"][0]:v["fpat"][1]]
+                    fbody = src[v["fbody"][0]:v["fbody"][1]]
+                    pat = src[v["pat"][0]:v["pat"][1]]
+                    body = src[v["body"][0]:v["body"][1]]
+                    tail = "pv_c" if src[v["call"][0]:v["call"][1]].rstrip().endswith("collect::<Vec<_>>()") else "pv_c.into()"
+                    m_t = re.search(r"collect::<([^<>]+)>\(\)$", src[v["call"][0]:v["call"][1]].rstrip())
+                    if m_t and tail != "pv_c":
+                        tail = f"{{ let pv_r: {m_t.group(1)} = pv_c.into(); pv_r }}"
+                    # filter's closure sees `&(usize, &T)` (pattern `&(i, _)`), map's closure sees `(usize, &T)`; the pair is Copy
+                    new = (f"{{ let mut pv_c = Vec::new(); let mut pv_k: usize = 0; while pv_k < {recv}.len() {{ let pv_item = (pv_k, &{recv}[pv_k]); pv_k += 1; "
+                           f"if {{ let {fpat} = pv_item; {fbody} }} {{ let {pat} = pv_item; pv_c.push({body}); }} }} {tail} }}")
+                    rewrites.append((v["call"][0], v["call"][1], new))
+                    records.append({"fn": fp, "rule": "D38 X.iter().enumerate().filter(|&(i, _)| C).map(|(_, q)| E).collect()  =>  { let mut out = Vec::new(); index loop { let item = (k, &X[k]); if { let (i, _) = item; C } { let (_, q) = item; out.push(E) } } out }",
+                                    "original": src[v["call"][0]:v["call"][1]], "rewritten": new})
+                    continue
                 if v["rule"] == "D22":
                     recv = src[v["recv"][0]:v["recv"][1]]
                     fpat = src[v["fpat"][0]:v["fpat"][1]]
@@ -732,6 +770,8 @@ class Unit:
         specs = parse_vspec(os.path.join(self.dir, "contracts.vspec"))
         slots = {}
         has = {}     # optional methods: "item::method" -> present in the repository text?
+        defaults = {}       # generated line of an emitted trait default -> (key, repo file)
+        default_files = {}
         fns = []
         notes = []
         deviations = []
@@ -791,6 +831,7 @@ class Unit:
                     # the prelude can ask with /*@@HAS id::m@@*/ and supply the default with //@@IFMISSING id::m@@
                     present = bool(loc["by_path"].get(item["path"] + "::" + m))
                     has[f"{iid}::{m}"] = present
+                    default_files[f"{iid}::{m}"] = relfile
                     deviations.append(f"{iid}::{m}: optional method, {'present in' if present else 'ABSENT from'} `{item['path']}` (absent = the trait default applies)")
                 for m in list(item["methods"]) + [m for m in item.get("optional_methods", []) if has.get(f"{iid}::{m}")]:
                     mit = find_item(loc, relfile, item["path"] + "::" + m)
@@ -855,6 +896,7 @@ class Unit:
                 if mi.group(1) not in has:
                     raise Undecided(f"unit {self.name}: prelude asks IFMISSING {mi.group(1)}, which is not an optional method of an item")
                 if not has[mi.group(1)]:
+                    defaults[line] = (mi.group(1), default_files.get(mi.group(1), ""))
                     emit(mi.group(2) + "    // the trait's default (the impl does not override it)\n")
                 else:
                     emit("\n")
@@ -898,5 +940,5 @@ class Unit:
                 if re.search(r"#\[cfg\(", ef.dropped_attrs):
                     raise Undecided(f"{ef.key}: carries a #[cfg] attribute; extraction would change its meaning")
         meta = {"functions": fns, "notes": notes, "deviations": deviations, "desugared": desugared,
-                "text_sha": sha(text)}
+                "text_sha": sha(text), "defaults": defaults}
         return text, meta
